@@ -92,6 +92,8 @@ class Oracle:
                                        {"shared": [f"{type(o).__name__} {o!r:.60}" for o in list(bad.values())[:3]], "paths": where[:3]},
                                        ctx.case()))
         tg = targeted_attrs(rec, ctx.op)
+        if ctx.op.get("shape") == "update:newvalue+kw":
+            tg = set(dnc)  # the result derives from the replacement instance handed in, not from the receiver
         for n in dnc:
             if n in tg:
                 continue
